@@ -132,6 +132,10 @@ structure Maker where
 
 def memokey (deepImm : Bool) (bigcap : String) : String := (if deepImm then "I" else "M") ++ bigcap
 
+/-- `bigcap = writecap or readcap` (an empty string stands for None/empty): the memo key is built
+from the write cap when there is one, else from the read cap; the other argument plays no role. -/
+def bigcapOf (writecap readcap : String) : String := if writecap.isEmpty then readcap else writecap
+
 /-- returns the node object id; `kind` is what the cap parses to -/
 def createFromCap (m : Maker) (deepImm : Bool) (bigcap : String) (kind : Kind) : Maker × Nat :=
   match m.cache.lookup (memokey deepImm bigcap) with
@@ -141,5 +145,9 @@ def createFromCap (m : Maker) (deepImm : Bool) (bigcap : String) (kind : Kind) :
     match kind with
     | .mutable => ({ cache := (memokey deepImm bigcap, n) :: m.cache, fresh := n + 1 }, n)
     | _ => ({ m with fresh := n + 1 }, n)              -- immutable and unknown nodes are not cached
+
+/-- `create_from_cap(writecap, readcap, deep_immutable)` -/
+def createFromCaps (m : Maker) (deepImm : Bool) (writecap readcap : String) (kind : Kind) : Maker × Nat :=
+  createFromCap m deepImm (bigcapOf writecap readcap) kind
 
 end Tahoe.Serializer
